@@ -7,9 +7,106 @@ import (
 
 	"github.com/cube2222/octosql/execution"
 	"github.com/cube2222/octosql/octosql"
+	"github.com/cube2222/octosql/physical"
 )
 
-func init() { register("c06", checkC06) }
+func init() {
+	register("c06", func(r *Run) {
+		if r.Tape.Draw(24) == 0 {
+			joinBacklogErrorScenario(r)
+		} else {
+			checkC06(r)
+		}
+	})
+}
+
+// joinBacklogErrorScenario: a join input fails after it has run far ahead of a join whose
+// consumer is stalled (the sink parks on its first row while the controller keeps releasing
+// the sources). Whatever the backlog, the input's error must fail the query.
+func joinBacklogErrorScenario(r *Run) {
+	t := r.Tape
+	hdr := t.Block(8)
+	joinSQL := []string{"JOIN", "LEFT JOIN", "RIGHT JOIN", "OUTER JOIN"}[hdr.Draw(4)]
+	backlog := []int{3, 500, 9998, 9999, 10000, 10001, 10400}[hdr.Draw(7)]
+	failLeft := hdr.Chance(1, 2)
+	optimize := hdr.Chance(1, 2)
+	attrs := map[string]string{"source": "sim", "shape": "join_backlog", "fault": "source_error"}
+	sql := "SELECT l.k, l.id, r.k, r.id FROM sim.l l " + joinSQL + " sim.r r ON l.k = r.k"
+	r.Log("sql: %s; the %s input fails after %d rows while the sink is stalled", sql, map[bool]string{true: "left", false: "right"}[failLeft], backlog)
+	r.Shape("join_backlog", joinSQL, backlog, failLeft, optimize)
+	r.Sched(backlog)
+	r.NonTrivial(true)
+	r.Fault("source_error")
+	big := make([]Msg, backlog)
+	for i := range big {
+		big[i] = Msg{Kind: MsgRec, Values: []octosql.Value{intv(1), intv(i)}}
+	}
+	small := []Msg{{Kind: MsgRec, Values: []octosql.Value{intv(1), intv(-1)}}}
+	ctl := NewCtl()
+	fields := []physical.SchemaField{{Name: "k", Type: octosql.Int}, {Name: "id", Type: octosql.Int}}
+	srcErr := fmt.Errorf("sim: injected source failure")
+	mk := func(name string, msgs []Msg, fails bool) *SimTable {
+		return &SimTable{Fields: fields, TimeField: -1, NoRetractions: true, Source: func() execution.Node {
+			s := &ScriptSource{Name: name, Msgs: msgs, Ctl: ctl, GateEvery: 2500}
+			if fails {
+				s.FinalErr = srcErr
+			}
+			return s
+		}}
+	}
+	tables := map[string]*SimTable{"l": mk("L", small, false), "r": mk("R", small, false)}
+	if failLeft {
+		tables["l"] = mk("L", big, true)
+	} else {
+		tables["r"] = mk("R", big, true)
+	}
+	planned, err := PlanSQL(bubbleCtx(), sql, tables, optimize)
+	if err != nil {
+		r.Infra("query did not plan: %v", err)
+		return
+	}
+	nOut := 0
+	produce := func(ctx execution.ProduceContext, rec execution.Record) error {
+		nOut++
+		if nOut == 1 {
+			if !ctl.Park("sink:stall") {
+				return errAborted
+			}
+		}
+		return nil
+	}
+	smallName := "R:"
+	if !failLeft {
+		smallName = "L:"
+	}
+	choose := func(en []string) int {
+		// Deterministic by construction: first the small input runs to its end, then the big
+		// one runs ahead in chunks (the join stalls in the sink on its first row, so from then on
+		// only one producer feeds it), and the stalled sink is released last.
+		for i, k := range en {
+			if strings.HasPrefix(k, smallName) {
+				return i
+			}
+		}
+		for i, k := range en {
+			if k != "sink:stall" {
+				return i
+			}
+		}
+		return 0
+	}
+	oc := RunGated(r, planned.Node, ctl, produce, func(execution.ProduceContext, execution.MetadataMessage) error { return nil }, choose, 100000)
+	r.AddEvents(nOut)
+	r.Log("run returned err=%v finished=%v deadlock=%v outputs=%d", errString(oc.Err), oc.Finished, oc.Deadlock, nOut)
+	if oc.Deadlock || !oc.Finished {
+		r.Violate("C06", "hang", attrs, "join query did not terminate after its input failed behind a backlog of %d rows", backlog)
+		return
+	}
+	if oc.Err == nil {
+		r.Violate("C06", "swallowed", attrs, "the %s input of %s failed after %d rows (sink stalled, backlog in the join's input channel) but the query reported success with %d rows",
+			map[bool]string{true: "left", false: "right"}[failLeft], joinSQL, backlog, nOut)
+	}
+}
 
 type c06Table struct {
 	kind   string // json | csv | lines
@@ -111,6 +208,9 @@ func checkC06(r *Run) {
 	}
 	optimize := hdr.Chance(2, 3)
 	workers := 1 + hdr.Draw(4)
+	// join only: the table without the fault contributes no row at all (its filter keeps nothing),
+	// so that side of the join ends early and empty while the faulty side is still running
+	emptyOther := shape == "join" && hdr.Chance(1, 3)
 	posDraw := hdr.Draw(1000)
 	maxLine := []int{64, 100, 200}[hdr.Draw(3)]
 	previewPhase := hdr.Chance(1, 6) // arm the read error on the schema-preview open instead
@@ -122,6 +222,10 @@ func checkC06(r *Run) {
 		target = sub
 	}
 	target.bad = posDraw % target.rows
+	if shape == "join" && faultOnSub && kind == "lines" {
+		// unoptimised, the filter sits above the join: the failing row must have a join partner to be evaluated
+		target.bad = posDraw % min(nMain, nSub)
+	}
 	if twoTables && !faultOnSub {
 		// a failing expression on a main-table row only has to surface if that row
 		// survives the join / IN test: pick a row whose join value exists in the other table
@@ -148,6 +252,7 @@ func checkC06(r *Run) {
 				xWhere = panicTerm(sub)
 			}
 		}
+
 		and := func(a, b string) string {
 			switch {
 			case a == "":
@@ -163,6 +268,18 @@ func checkC06(r *Run) {
 			}
 			return " WHERE " + w
 		}
+		joinWhere := ""
+		if emptyOther {
+			// the failing conjunct comes first, so that it is evaluated for every joined row when the
+			// filter stays above the join; pushed below the join, the other side's filter keeps nothing
+			if target == main {
+				joinWhere = and(mWhere, sub.id+" < "+sub.lit(0))
+			} else {
+				joinWhere = and(xWhere, main.id+" < "+main.lit(0))
+			}
+		} else {
+			joinWhere = and(mWhere, xWhere)
+		}
 		switch shape {
 		case "none":
 			return fmt.Sprintf("SELECT %s, %s FROM %s%s", main.id, main.s, main.ref(), where(mWhere))
@@ -176,7 +293,7 @@ func checkC06(r *Run) {
 		case "group_by":
 			return fmt.Sprintf("SELECT %s AS gg, COUNT(*) AS c FROM %s%s GROUP BY %s", main.g, main.ref(), where(mWhere), main.g)
 		case "join":
-			return fmt.Sprintf("SELECT %s, %s FROM %s JOIN %s ON %s = %s%s", main.id, sub.id, main.ref(), sub.ref(), main.g, sub.g, where(and(mWhere, xWhere)))
+			return fmt.Sprintf("SELECT %s, %s FROM %s JOIN %s ON %s = %s%s", main.id, sub.id, main.ref(), sub.ref(), main.g, sub.g, where(joinWhere))
 		case "in_subquery":
 			return fmt.Sprintf("SELECT %s FROM %s WHERE %s", main.id, main.ref(), and(mWhere, fmt.Sprintf("%s IN (SELECT %s FROM %s%s)", main.g, sub.g, sub.ref(), where(xWhere))))
 		case "scalar_subquery":
@@ -266,7 +383,7 @@ func checkC06(r *Run) {
 	baseSQL := build(false)
 	r.Log("sql: %s", baseSQL)
 	r.Log("source=%s main=%d rows sub=%d rows optimize=%v workers=%d", kind, nMain, nSub, optimize, workers)
-	r.Shape(kind, shape, fault, faultFree, faultOnSub, nMain, nSub, optimize, previewPhase)
+	r.Shape(kind, shape, fault, faultFree, faultOnSub, nMain, nSub, optimize, previewPhase, emptyOther)
 	r.Sched(posDraw, maxLine, workers)
 	r.NonTrivial(true)
 	base := runQuery(baseSQL, nil)
